@@ -280,8 +280,13 @@ Section Model.
                                  | Some ds => bs <- pack_fields (fun x ft => pack ls x c ft) false kvs ds ;; Ok (BDict bs)
                                  | None => Err EBad end
                   | _ => Err EBad end
+    | TFix c => match v with
+                | VColl CTuple items => match lookup c E with
+                                        | Some ds => bs <- pack_items (fun x ft => pack ls x self ft) items ds ;; Ok (BList bs)
+                                        | None => Err EBad end
+                | _ => Err EBad end
     end.
-  Proof. destruct v; destruct t; reflexivity. Qed.
+  Proof. destruct v as [| | | | | | | | |ck ? | |]; try destruct ck; destruct t; reflexivity. Qed.
 
   Lemma unpack_eq ls b self t :
     unpack ls b self t =
@@ -326,6 +331,11 @@ Section Model.
                                  | Some ds => vs <- unpack_fields (map (bind_clos (unpack ls) c) kvs) ds ;; Ok (VDict vs)
                                  | None => Err EBad end
                   | _ => Err EBad end
+    | TFix c => match b with
+                | BList l => match lookup c E with
+                             | Some ds => vs <- unpack_items (fun x ft => unpack ls x self ft) l ds ;; Ok (VColl CTuple vs)
+                             | None => Err EBad end
+                | _ => Err EBad end
     end.
   Proof. destruct b; destruct t; reflexivity. Qed.
 
@@ -372,6 +382,9 @@ Section Model.
       destruct (pack_items (fun x ft => pack ls x c ft) items l); discriminate.
     - destruct v; try discriminate. destruct (lookup c E); [|discriminate].
       destruct (pack_fields (fun x ft => pack ls x c ft) false kvs l); discriminate.
+    - destruct v as [| | | | | | | | |ck items| |]; try discriminate. destruct ck; try discriminate.
+      destruct (lookup c E); [|discriminate].
+      destruct (pack_items (fun x ft => pack ls x self ft) items l); discriminate.
   Qed.
 
   Lemma pack_vnone ls self : forall t b, pack ls VNone self t = Ok b -> b = BNone.
@@ -618,7 +631,7 @@ Section Model.
     intros Hco Hwf Hwe Hdef.
     induction v as [|b0|z0|f0|s0|k0 p0|l IHl|kvs IHk|c0 fs IHf|ck0 cl IHc|en em|nc ni IHn] using pv_ind'; unfold rt_at;
       intros self t; revert self;
-      induction t as [| | | |k|s| |t IHt|t IHt|t IHt|c| |fld vs|ck t IHt|e|c|c]; intros self b Hwt Hlv H;
+      induction t as [| | | |k|s| |t IHt|t IHt|t IHt|c| |fld vs|ck t IHt|e|c|c|c]; intros self b Hwt Hlv H;
       rewrite pack_eq in H; try discriminate;
       try (inversion H; subst b; rewrite unpack_eq; reflexivity).
     all: try (simpl in H; inversion H; subst b; reflexivity).
@@ -682,6 +695,12 @@ Section Model.
       rewrite (mapM_rt (fun x => pack ls x self t) (fun x => unpack ls x self t) (norm F) cl bs); auto.
       intros x bx Hin Hx. rewrite Forall_forall in IHc. apply (IHc x Hin); auto.
       simpl in Hlv. rewrite forallb_forall in Hlv. apply Hlv. exact Hin.
+    - (* TFix *) destruct ck0; try discriminate.
+      destruct (lookup c E) as [ds|] eqn:El; [|discriminate].
+      apply bind_ok in H. destruct H as [bs [Hbs H]]. inversion H; subst b; clear H.
+      destruct (wf_env_class c ds Hwf El) as [_ Hwtd].
+      rewrite unpack_eq. simpl. rewrite El.
+      rewrite (items_rt F ls self cl ds bs IHc Hwtd Hlv Hbs). reflexivity.
     - (* TEnum *) destruct (String.eqb e en) eqn:Ee; [|discriminate]. apply String.eqb_eq in Ee. subst en.
       destruct (lookup e EN) as [ms|] eqn:El; [|discriminate].
       destruct (lookup em ms) as [x|] eqn:Em; [|discriminate]. inversion H; subst b.
@@ -877,7 +896,7 @@ Section Model.
   Proof.
     induction v as [|b0|z0|f0|s0|k0 p0|l IHl|kvs IHk|c0 fs IHf|ck0 cl IHc|en em|nc ni IHn] using pv_ind'; unfold doc_at;
       intros self t; revert self;
-      induction t as [| | | |k|s| |t IHt|t IHt|t IHt|c| |fld vs|ck t IHt|e|c|c]; intros self b Hnn H;
+      induction t as [| | | |k|s| |t IHt|t IHt|t IHt|c| |fld vs|ck t IHt|e|c|c|c]; intros self b Hnn H;
       rewrite pack_eq in H; try discriminate;
       rewrite (pack_eq (basic_of ls));
       try (inversion H; subst b; eexists; split; [reflexivity|];
@@ -917,6 +936,12 @@ Section Model.
     - (* TColl *) destruct (ckind_eqb ck ck0); [|discriminate].
       apply bind_ok in H. destruct H as [bs [Hbs H]]. inversion H; subst b.
       destruct (list_doc F ls self t cl IHc bs (nn_list _ _ Hnn) Hbs) as [bbs [Hb Hm]].
+      exists (BList bbs). rewrite Hb. simpl. split; [reflexivity|].
+      rewrite side_list. rewrite <- Hm. unfold rn. simpl. rewrite map_map. reflexivity.
+    - (* TFix *) destruct ck0; try discriminate.
+      destruct (lookup c E) as [ds|]; [|discriminate].
+      apply bind_ok in H. destruct H as [bs [Hbs H]]. inversion H; subst b; clear H.
+      destruct (items_doc F ls self cl IHc ds bs (nn_list _ _ Hnn) Hbs) as [bbs [Hb Hm]].
       exists (BList bbs). rewrite Hb. simpl. split; [reflexivity|].
       rewrite side_list. rewrite <- Hm. unfold rn. simpl. rewrite map_map. reflexivity.
     - (* TEnum *) destruct (String.eqb e en); [|discriminate].
